@@ -42,10 +42,10 @@ theorem deb_characters_order :
     (∀ p ∈ Gen.debCharactersOrder, p.1.length ≤ 1) ∧
     Gen.debCharactersOrder.length = 57 := by decide
 
-/-- the operator table of `debian.Version.compare` -/
+/-- the relation texts that `debian.eval_constraint` evaluates (sorted; read by behaviour) -/
 theorem deb_operators : Gen.debOperators = [
-  "<<", "<=", "=", ">=",
-  ">>", "<", ">"] := by decide
+  "<", "<<", "<=", "=",
+  ">", ">=", ">>"] := by decide
 
 /-- `all_legacy_base` -/
 theorem openssl_legacy_bases : Gen.legacyOpensslBases.map String.toList = Openssl.Legacy.legacyBases := by decide
